@@ -70,6 +70,8 @@ def _case(draw, tier):
         st.tuples(st.just("bad"), st.integers(0, 2), st.integers(0, len(BAD) - 1)),
         st.tuples(st.just("shape"), st.integers(0, 2), st.integers(0, len(SHAPES) - 1)),
         st.tuples(st.just("eof"), st.integers(0, 2), st.sampled_from([b"", b"{\"__kind__\": \"get_ta", b"{", b"\xff"]).map(lambda b: b.decode("latin1"))),
+        st.tuples(st.just("nearid"), st.integers(0, 2), st.integers(0, 7), st.sampled_from(["cancel_task", "get_task_state"]),
+                  st.sampled_from(["plus-half", "minus-half", "string", "list", "plus-one-string", "negative"])),
         st.tuples(st.just("exit"), st.integers(0, 5), st.sampled_from([0, 0, 0, 1, 2])),
         st.tuples(st.just("exit"), st.integers(0, 5), st.just(0)),
         st.tuples(st.just("advance"), st.sampled_from([0.5, 1, 2, 11])),
@@ -197,7 +199,7 @@ def run_case(case):
         for step in case["steps"]:
             w.step_no += 1
             op = step[0]
-            if op in ("enqueue", "states", "cancel", "close", "bad", "shape", "eof", "raw"):
+            if op in ("enqueue", "states", "cancel", "close", "bad", "shape", "eof", "raw", "nearid"):
                 cid = step[1]
                 c = conns.get(cid)
                 healthy_op = op in ("enqueue", "states", "cancel", "close")
@@ -255,6 +257,22 @@ def run_case(case):
                         tm.cancel_hit = True
                         if tm.timed_out:
                             tm.cancel_after_timeout = True
+            elif op == "nearid":
+                # a request naming an id that is *not* an accepted id but looks like one: no accepted task may be touched
+                real = [t for t in accepted if t in w.by_tid and isinstance(t, int)]
+                if real:
+                    tid = real[step[2] % len(real)]
+                    bogus = {"plus-half": tid + 0.5, "minus-half": tid - 0.5, "string": f" {tid} ", "list": [tid],
+                             "plus-one-string": str(max(accepted, key=lambda x: x if isinstance(x, int) else 0) + 1),
+                             "negative": -tid}[step[4]]
+                    send(c, (json.dumps({"__kind__": step[3], "tid": bogus}) + "\n").encode())
+                    for r in replies(c):
+                        if r.get("__kind__") == "task_state" and r.get("state") not in (None, "UNKNOWN"):
+                            v("state-of-another-id", f"get_task_state for the unknown id {bogus!r} answered {r.get('state')!r} "
+                                                     f"(the state of task {tid})")
+                    labels.add("near-id")
+                    if running_now:
+                        malformed_while_running = True
             elif op == "close":
                 send(c, b'{"__kind__": "close"}\n')
                 conns.pop(cid, None)
